@@ -54,6 +54,7 @@ fn main() {
         "C01" => props::c01::run(cx),
         "C02" => props::c02::run(cx),
         "C03" => props::c03::run(cx),
+        "C04" => props::c04::run(cx),
         "C05" => props::c05::run(cx),
         "C07" => props::c07::run(cx),
         "C08" => props::c08::run(cx),
